@@ -1,5 +1,7 @@
 import ClipVerif.Proofs.C17
 import ClipVerif.Proofs.C02
+import ClipVerif.Model.Out
+import ClipVerif.Proofs.Out
 /-
 C02 — closed solutions are a canonical, non-overlapping polygon set.  The winding claim is global
 and explored by the search (region oracle with the solution's own edges as band, plus Union(sol) =
@@ -8,7 +10,7 @@ negates the winding number of the whole set (so winding ∈ {0,1} becomes ∈ {0
 orientations flip together); the "very small triangle" rejection test of path emission.
 -/
 namespace C02
-open Gen Spec
+open Gen Spec Model
 
 theorem reverse_flips_all (sol : List (List IPt)) (p : QPt) :
     windS (sol.map List.reverse) p = - windS sol p := by
@@ -22,5 +24,48 @@ theorem ptsReallyClose_iff (a b : Point64) (ha : a.inRange) (hb : b.inRange) :
     ptsReallyClose a b = true ↔
       ((a.X.toInt - b.X.toInt).natAbs < 2 ∧ (a.Y.toInt - b.Y.toInt).natAbs < 2) := by
   exact Proofs.C02.ptsReallyClose_iff a b ha hb
+
+/-! ### Output rings: `cleanCollinear`'s removal loop and `buildPath` (model `Model.Out`, tied by `models-corr clean|build`) -/
+
+/-- a vertex equal to one of its ring neighbours is always removable -/
+theorem removable_of_duplicate (preserve : Bool) (ring : List Point64) (i : Nat)
+    (h : ringGet ring i = ringGet ring (ringPrev ring.length i) ∨
+         ringGet ring i = ringGet ring (ringNext ring.length i)) :
+    removable preserve ring i = true := by
+  exact Proofs.Out.removable_of_duplicate preserve ring i h
+
+/-- the loop of `cleanCollinear` stops only when nothing is removable any more: the ring that is
+    left (if any) has at least two vertices, `outrec.pts` points into it, and no vertex is a
+    duplicate of a neighbour or a 180° spike (or, without PreserveCollinear, collinear with its
+    neighbours at all); the iteration bound of the model is never the reason for stopping -/
+theorem clean_post (preserve : Bool) (ring : List Point64) :
+    (cleanCollinearLoop preserve ring).1 = [] ∨
+    (2 ≤ (cleanCollinearLoop preserve ring).1.length ∧
+     (cleanCollinearLoop preserve ring).2 < (cleanCollinearLoop preserve ring).1.length ∧
+     ∀ i, i < (cleanCollinearLoop preserve ring).1.length →
+       removable preserve (cleanCollinearLoop preserve ring).1 i = false) := by
+  exact Proofs.Out.clean_post preserve ring
+
+/-- vertices are only removed, never moved or invented -/
+theorem clean_sublist (preserve : Bool) (ring : List Point64) :
+    (cleanCollinearLoop preserve ring).1.Sublist ring := by
+  exact Proofs.Out.clean_sublist preserve ring
+
+/-- `buildPath` never emits two equal consecutive points -/
+theorem build_no_adjacent_duplicates (ring : List Point64) (reverse isOpen : Bool) (q : List Point64)
+    (h : buildPath ring reverse isOpen = some q) :
+    ∀ i, i + 1 < q.length → q[i]! ≠ q[i + 1]! := by
+  exact Proofs.Out.build_no_adjacent_duplicates ring reverse isOpen q h
+
+/-- on a closed ring of at least three vertices without equal neighbours `buildPath` returns the
+    whole ring (from `op.next` round to `op`, or backwards from `op`), unless it is a triangle with
+    two vertices within one unit of each other -/
+theorem build_closed_of_clean (ring : List Point64) (reverse : Bool) (hn : 3 ≤ ring.length)
+    (hnd : ∀ i, i < ring.length → ringGet ring i ≠ ringGet ring (ringNext ring.length i)) :
+    buildPath ring reverse false =
+      (if ring.length = 3 ∧ verySmallTriangle ring[0]! ring[1]! ring[2]! = true then none
+       else some (if reverse then ring.head! :: ring.tail.reverse else ring.tail ++ [ring.head!])) := by
+  exact Proofs.Out.build_closed_of_clean ring reverse hn hnd
+
 
 end C02
